@@ -13,6 +13,7 @@
 package main
 
 import (
+	"encoding/json"
 	"fmt"
 	"os"
 	"strings"
@@ -34,8 +35,49 @@ var layers = []layer{
 	{Name: "L3", Cases: l3Cases, Run: func(rec vlib.Recorder, cs any) { runL3(rec, cs.(*drvCase)) }},
 }
 
+// replay re-executes the case stored in a replay file.
+func replay(c *vlib.Check, b []byte) {
+	var f struct {
+		Witness struct {
+			Case json.RawMessage `json:"case"`
+		} `json:"witness"`
+	}
+	if err := json.Unmarshal(b, &f); err != nil || f.Witness.Case == nil {
+		fmt.Println("cannot parse replay:", err)
+		os.Exit(2)
+	}
+	if strings.Contains(string(f.Witness.Case), "cu_counts") {
+		var d drvCase
+		_ = json.Unmarshal(f.Witness.Case, &d)
+		runL3(c, &d)
+	} else {
+		var g geomCase
+		_ = json.Unmarshal(f.Witness.Case, &g)
+		runL1(c, &g)
+	}
+	c.Finish(vlib.FinishOpts{Rule: "replay of one recorded case"})
+}
+
 func main() {
+	// read a replay file before vlib.Start, which removes stale replay files
+	// of the same (tier, seed)
+	var replayData []byte
+	for i, a := range os.Args {
+		if a == "--replay" && i+1 < len(os.Args) {
+			b, err := os.ReadFile(os.Args[i+1])
+			if err != nil {
+				fmt.Println("cannot read replay:", err)
+				os.Exit(2)
+			}
+			replayData = b
+		}
+	}
 	c := vlib.Start("C08")
+	{
+		if replayData != nil {
+			replay(c, replayData)
+		}
+	}
 	only := os.Getenv("C08_LAYERS") // e.g. "L1,L3" (debugging aid)
 	for _, l := range layers {
 		if only != "" && !strings.Contains(only, l.Name) {
